@@ -99,4 +99,12 @@ CLAIMED["C19"] = {
     "note": COMMON_NOTE + "inspect.getsource and docstring_parser are oracles; checked on generated real module files.",
     "technique": T,
 }
+CLAIMED["C15"] = {
+    "text": "C15_what_comes_back: for every type of the CLI/serialisation intersection grammar and every well-typed value, exactly what the save -> config file "
+            "-> parse loop returns; it equals the saved value under items_plain and not_null_over_default (C15_loop_partial, C15_tree_loop for whole nested "
+            "instances and the 4 suffixes); the full statement is refuted with witnesses (None over a definition default; List[Path]/Tuple[Enum,..] items stay "
+            "strings) = known findings. encode registrations, suffix table and the default->postprocess order are regenerated.",
+    "note": COMMON_NOTE + "json/yaml/pickle are modelled as the identity on encoded documents; file I/O is trusted.",
+    "technique": T,
+}
 NOT_CLAIMED = {}
